@@ -690,7 +690,7 @@ func TestVerifC10(t *testing.T) {
 		// mutations at every byte position
 		stride := 1
 		if !small {
-			stride = vfScale(37, 5)
+			stride = vfScale(61, 5)
 		}
 		startOff := r.Intn(stride)
 		for pos := startOff; pos < len(s.strm); pos += stride {
@@ -1077,10 +1077,12 @@ func c10Transport(t *testing.T, c *c10Ctx, shapes []*c10Shape) {
 // (k = number of completed steps: 0 data only in <id>.tmp, 1 + sidecars, 2 + meta.json, 3 synced,
 // 4.. renamed into place), then a real store start (Store.check) and what it lists.
 func c10CrashStates(t *testing.T, c *c10Ctx, shapes []*c10Shape) {
+	done := 0
 	for _, s := range shapes {
-		if !s.real {
+		if !s.real || (done >= 1 && !vfThorough()) {
 			continue
 		}
+		done++
 		for k := 0; k <= 6; k++ {
 			root, _ := os.MkdirTemp(c.root, "crash")
 			id := "2-77-1700000000077"
